@@ -56,6 +56,34 @@ HMOD = 2147483647
 FOUR = [(-1, 0), (1, 0), (0, -1), (0, 1)]
 
 
+# ------------------------------------------------------------------ watchdog
+
+class Hang(Exception):
+    pass
+
+
+class time_limit:
+    """raise Hang inside the block after `seconds` (a mutated rejection / retry loop in the
+    implementation must not make the check itself hang)."""
+
+    def __init__(self, seconds):
+        self.seconds = seconds
+
+    def _fire(self, *a):
+        raise Hang("no result after %ss" % self.seconds)
+
+    def __enter__(self):
+        import signal
+        self.old = signal.signal(signal.SIGALRM, self._fire)
+        signal.setitimer(signal.ITIMER_REAL, self.seconds)
+
+    def __exit__(self, *a):
+        import signal
+        signal.setitimer(signal.ITIMER_REAL, 0)
+        signal.signal(signal.SIGALRM, self.old)
+        return False
+
+
 # ------------------------------------------------------------------ printing
 
 def show_prob(p):
@@ -206,14 +234,15 @@ def python_run(cfg, hook=None, watch=True):
         hook(True)
     try:
         try:
+          with time_limit(60):
             r = generate_problem(
                 cb.solver, builder_pattern=pattern, score=cb.score,
                 clue_penalty=cb.clue_penalty if cfg["pen"] else None, uniqueness=cb.uniqueness,
                 pretest=cb.pretest if cfg["kpre"] else None, initial_temperature=cfg["t0"],
                 temperature_decay=cfg["decay"], max_steps=cfg["max_steps"],
                 solve_initial_problem=cfg["solve_initial"])
-            out = ("ok", ("None" if r is None else show_prob(r), prng_state(), cb.calls, tuple(cb.trace)))
-            cb.result = r
+          out = ("ok", ("None" if r is None else show_prob(r), prng_state(), cb.calls, tuple(cb.trace)))
+          cb.result = r
         except BaseException as ex:  # noqa
             if isinstance(ex, (KeyboardInterrupt, SystemExit)):
                 raise
@@ -226,6 +255,8 @@ def python_run(cfg, hook=None, watch=True):
 
 
 def err_name(ex):
+    if isinstance(ex, Hang):
+        return "Hang"
     for cls, nm in ((RecursionError, "RecursionError"), (IndexError, "IndexError"), (KeyError, "KeyError"),
                     (AssertionError, "AssertionError"), (TypeError, "TypeError"), (ValueError, "ValueError"),
                     (NotImplementedError, "NotImplementedError"), (ZeroDivisionError, "ZeroDivisionError"),
@@ -327,6 +358,7 @@ def py_ops(seed, ops):
     out = []
     for op in ops:
         try:
+          with time_limit(20):
             if op[0] == "n":
                 out.append(str(dr._rng.next()))
             elif op[0] == "r":
@@ -447,14 +479,15 @@ def walk_problem(rng, spec, steps, errs=None):
     when the pattern raises)."""
     from cspuz.generator import build_neighbor_generator
     try:
-        pattern = build_pattern(spec)
-        seed_prng(rng.randint(0, 1000))
-        p, gen = build_neighbor_generator(pattern)
-        for _ in range(steps):
-            ns = list(gen(p))
-            if not ns:
-                break
-            p = rng.choice(ns)
+        with time_limit(30):
+            pattern = build_pattern(spec)
+            seed_prng(rng.randint(0, 1000))
+            p, gen = build_neighbor_generator(pattern)
+            for _ in range(steps):
+                ns = list(gen(p))
+                if not ns:
+                    break
+                p = rng.choice(ns)
         return p
     except Exception as ex:
         if errs is not None:
@@ -539,17 +572,18 @@ def corr_prng(ctx, m):
 
 
 def py_candidates(spec, cur, seed):
-    b = build_pattern(spec)
-    seed_prng(seed)
-    cands = b.candidates(cur)
-    ups = []
-    for u in cands:
-        if spec[0] == "C":
-            ups.append("V %d" % u)
-        else:
-            ups.append("U" + "".join(" %d %d %d" % t for t in u))
-    applied = [show_prob(b.copy_with_update(cur, u)) for u in cands]
-    return (tuple(ups), tuple(applied), prng_state())
+    with time_limit(30):
+        b = build_pattern(spec)
+        seed_prng(seed)
+        cands = b.candidates(cur)
+        ups = []
+        for u in cands:
+            if spec[0] == "C":
+                ups.append("V %d" % u)
+            else:
+                ups.append("U" + "".join(" %d %d %d" % t for t in u))
+        applied = [show_prob(b.copy_with_update(cur, u)) for u in cands]
+        return (tuple(ups), tuple(applied), prng_state())
 
 
 def parse_cand_reply(r):
@@ -599,12 +633,13 @@ def corr_candidates(ctx, m):
 
 
 def py_neighbours(spec, p, seed):
-    from cspuz.generator import build_neighbor_generator
-    pattern = build_pattern(spec)
-    _, gen = build_neighbor_generator(pattern)
-    seed_prng(seed)
-    ns = list(gen(p))
-    return (tuple(show_prob(q) for q in ns), prng_state())
+    with time_limit(30):
+        from cspuz.generator import build_neighbor_generator
+        pattern = build_pattern(spec)
+        _, gen = build_neighbor_generator(pattern)
+        seed_prng(seed)
+        ns = list(gen(p))
+        return (tuple(show_prob(q) for q in ns), prng_state())
 
 
 def parse_nb_reply(r):
@@ -789,7 +824,8 @@ def call_valid(ctx, key, detail, f, *args):
     """call an srandom function on arguments inside its documented domain: an exception there
     is itself a failure of the property (the value is not in the promised range)."""
     try:
-        return True, f(*args)
+        with time_limit(20):
+            return True, f(*args)
     except Exception as ex:  # noqa
         d = dict(detail)
         d["exception"] = "%s: %s" % (type(ex).__name__, ex)
@@ -904,9 +940,10 @@ def search_neighbours(ctx):
     for (spec, p, seed) in cases:
         p0 = copy.deepcopy(p)
         try:
-            _, gen = build_neighbor_generator(build_pattern(spec))
-            seed_prng(seed)
-            ns = list(gen(p))
+            with time_limit(30):
+                _, gen = build_neighbor_generator(build_pattern(spec))
+                seed_prng(seed)
+                ns = list(gen(p))
         except Exception as ex:
             ctx.violation("generator-raises", "the neighbour generator raised on a well-formed pattern and a problem it produced itself",
                           {"pattern": spec, "current": p0, "seed": seed, "exception": "%s: %s" % (type(ex).__name__, ex)})
@@ -950,8 +987,9 @@ def search_candidates(ctx):
         seed_prng(seed)
         cur0 = copy.deepcopy(cur)
         try:
-            cands = b.candidates(cur)
-            [b.copy_with_update(cur, u) for u in cands]
+            with time_limit(30):
+                cands = b.candidates(cur)
+                [b.copy_with_update(cur, u) for u in cands]
         except Exception as ex:
             ctx.violation("generator-raises", "candidates()/copy_with_update() raised on a grid the builder produced itself",
                           {"builder": spec, "current": cur0, "seed": seed, "exception": "%s: %s" % (type(ex).__name__, ex)})
@@ -1021,16 +1059,17 @@ def search_runs(ctx):
 
 
 def seg_run(spec, seed, pyseed, max_steps):
-    import random as pyrandom
-    from cspuz.generator import generate_problem
-    pyrandom.seed(pyseed)
-    cfg = {"salt": 7, "ksat": 0, "kuniq": 10 ** 9, "kpre": 0, "stateful": False}
-    cb = Callbacks(cfg)
-    seed_prng(seed)
-    pattern = build_pattern(spec)
-    r = generate_problem(cb.solver, builder_pattern=pattern, score=cb.score, uniqueness=cb.uniqueness, max_steps=max_steps)
-    bad = [i for i, (o, s) in enumerate(cb.kept) if o != s]
-    return (None if r is None else show_prob(r), tuple(cb.trace)), bad
+    with time_limit(30):
+        import random as pyrandom
+        from cspuz.generator import generate_problem
+        pyrandom.seed(pyseed)
+        cfg = {"salt": 7, "ksat": 0, "kuniq": 10 ** 9, "kpre": 0, "stateful": False}
+        cb = Callbacks(cfg)
+        seed_prng(seed)
+        pattern = build_pattern(spec)
+        r = generate_problem(cb.solver, builder_pattern=pattern, score=cb.score, uniqueness=cb.uniqueness, max_steps=max_steps)
+        bad = [i for i, (o, s) in enumerate(cb.kept) if o != s]
+        return (None if r is None else show_prob(r), tuple(cb.trace)), bad
 
 
 def search_segmentation(ctx):
@@ -1047,7 +1086,8 @@ def search_segmentation(ctx):
             a, bad_a = seg_run(spec, seed, 1, 6)
             b, bad_b = seg_run(spec, seed, 2, 6)
         except Exception as ex:
-            ctx.note("segmentation run raised %r on %r" % (ex, spec))
+            ctx.violation("segmentation-run-raises", "generate_problem over a SegmentationBuilder2D pattern raised / did not terminate",
+                          {"pattern": spec, "seed": seed, "exception": "%s: %s" % (type(ex).__name__, ex)})
             continue
         ctx.prop_case("segmentation-same-seed", (json.dumps(spec), seed))
         if a != b:
